@@ -157,6 +157,15 @@ def run(tier, seed):
             try:
                 call()
             except ValueError:
+                try:
+                    call()               # and a second time: what was refused once must be refused again
+                except ValueError:
+                    continue
+                except Exception as ex:
+                    v.violation("%s raised %r instead of ValueError when the invalid orientation %s was offered a second time" % (nm, ex, list(m)),
+                                {"function": nm, "o": list(m)})
+                    continue
+                v.violation("%s refused the invalid orientation matrix %s once and accepted it the second time" % (nm, list(m)), {"function": nm, "o": list(m)})
                 continue
             except Exception as ex:
                 v.violation("%s raised %r instead of ValueError for invalid orientation %s" % (nm, ex, list(m)),
